@@ -313,6 +313,9 @@ def explicit_branch_lam(prog, run, fi, pf, f, cfg, label, oval, p_freq, p_order,
     a0, b0 = iscl.args[0], iscl.args[1]
     acc0 = astq.access_path(a0, tables)
     okA = acc0 is not None and acc0.table == tF and _same(acc0.row, ref.row) and _same(acc0.col, ref.col)
+    if not okA and acc0 is not None and acc0.table == tF and None in (_same3(prog, fi, acc0.row, ref.row), _same3(prog, fi, acc0.col, ref.col)) \
+            and False not in (_same3(prog, fi, acc0.row, ref.row), _same3(prog, fi, acc0.col, ref.col)):
+        okA = None
     okB = is_req(b0)
     if not okB and acc0 is None:
         acc1 = astq.access_path(b0, tables)
@@ -474,7 +477,32 @@ def _same(a, b):
     """two optional index expressions denote the same thing (None = the whole axis)"""
     if a is None or b is None:
         return a is None and b is None
-    return astq.dump(a) == astq.dump(b)
+    if astq.dump(a) == astq.dump(b):
+        return True
+    # int(<arg-reduction>) is the arg-reduction: a conversion of type keeps the index
+    return astq.dump(astq.uncoerce(a)) == astq.dump(astq.uncoerce(b))
+
+
+def _opaque_index(prog, fi, e):
+    """the index expression goes through a call of a package function that was not written out (a helper with several returns): what it
+    denotes is not known, so it is neither the same as nor different from another index"""
+    if e is None:
+        return False
+    for c in ast.walk(e):
+        if isinstance(c, ast.Call):
+            nm = astq.callee_name(prog, fi, c) or ""
+            if nm.startswith("pyoma2.") or (isinstance(c.func, ast.Name) and not nm.startswith(("numpy.", "scipy.", "math.")) and c.func.id not in ("int", "float", "len", "abs", "min", "max", "range")):
+                return True
+    return False
+
+
+def _same3(prog, fi, a, b):
+    """True / False / None (not known) for two optional index expressions"""
+    if _same(a, b):
+        return True
+    if _opaque_index(prog, fi, a) or _opaque_index(prog, fi, b):
+        return None
+    return False
 
 
 def slots(prog, run, fi, pf, f, cfg, seen_tables, kinds):
